@@ -632,3 +632,7 @@ def twin_all_nonfinal(interp, func, args, kwargs):
 
 
 DEFAULT['all_nonfinal'] = twin_all_nonfinal
+
+from . import tokens as _tokens  # noqa: E402
+DEFAULT['csi_tokens'] = _tokens.twin_csi_tokens
+MODULAR['B1'] = {'ParsedAnsiControlSequenceString.__init__': _tokens.summ_parsed_init}
